@@ -288,8 +288,30 @@ def check(cx):
             from_xmin = any(op_local({"c": c.dst}) in h.dep_closure(op_local(other)) or op_local({"c": c.dst}) == op_local(other) for c in xm)
             if from_xmin and a_hor != b_hor:
                 op = s["rv"]["op"]
-                good = (op == "Ge" and b_hor) or (op == "Le" and a_hor)
+                # relation between delta.xmin and the horizon that the result states when it is true
+                rel = op if b_hor else {"Ge": "Le", "Le": "Ge", "Gt": "Lt", "Lt": "Gt"}[op]
                 why = "%s(%s)" % (op, "delta.xmin, horizon" if b_hor else "horizon, delta.xmin")
+                # which outcome keeps walking the chain (stays in the loop) and which stops (`if keep {..} else {break}` and
+                # `if !keep {break}` are the same rule)
+                res = s["dst"][0]
+                stays = {}
+                for bi, b in enumerate(h.blocks):
+                    t = b["term"]
+                    if t["t"] == "switch" and t.get("ty") == "bool" and op_local(t["o"]) is not None and \
+                            res in (h.provenance_locals(op_local(t["o"])) | {op_local(t["o"])}):
+                        heads = [hd for hd, body in core.natural_loops(h) if bi in body]
+                        zero = [tg for v, tg in t["targets"] if v == 0]
+                        for val, tg in ((0, zero[0] if zero else None), (1, t["otherwise"])):
+                            if tg is not None:
+                                stays[val] = any(hd in h.reachable(tg) for hd in heads)
+                if stays.get(1) and stays.get(0) is False:
+                    keep = rel
+                elif stays.get(0) and stays.get(1) is False:
+                    keep = {"Ge": "Lt", "Lt": "Ge", "Gt": "Le", "Le": "Gt"}[rel]
+                else:
+                    keep = None
+                good = keep == "Ge"
+                why += ", the chain walk goes on when delta.xmin %s horizon" % {"Ge": ">=", "Gt": ">", "Le": "<=", "Lt": "<", None: "?"}[keep]
         cx.verdict(good, r5, "keep-iff-xmin>=horizon", h.where(), why,
                    "vaccum_with compares with %s: a delta created exactly at the horizon (or all older ones) is trimmed/kept wrongly" % why)
 
